@@ -39,6 +39,17 @@ def bootstrap():
     for v in ("MOLLI_DATA_DIR", "MOLLI_BACKUP_DIR", "MOLLI_SCRATCH_DIR", "MOLLI_SHARED_DIR"):
         os.environ.pop(v, None)
     os.environ.setdefault("SEDENMARKLAB_MOLLI_VERIF", "1")
+    # The process works in a private directory that holds only symbolic links: `ln -> .` and `lnk_libN.ukv -> libN.ukv`.
+    # No regular file is ever created there (library files live on the simulated file system, whose namespace is rooted
+    # here), but the links let a workload name one library through a symlinked directory or file, and molli's
+    # rwlock() - which resolves paths on the REAL file system - sees the same aliasing as the simulated kernel does.
+    cwd = os.path.join(SANDBOX, "cwd")
+    os.makedirs(cwd, exist_ok=True)
+    for link, target in [("ln", ".")] + [(f"lnk_lib{i}.ukv", f"lib{i}.ukv") for i in range(3)]:
+        lp = os.path.join(cwd, link)
+        if not os.path.islink(lp):
+            os.symlink(target, lp)
+    os.chdir(cwd)
     owner = os.getpid()
 
     def _cleanup():
